@@ -112,6 +112,21 @@ theorem condition_tie : Gen.BddCore.condition = Bdd.condition := by
   | (funext lvl p x v; simp only [Gen.BddCore.condition, condHelper_tie])
   | (funext lvl p x v; simp only [Gen.BddCore.condition, Gen.BddCore.condHelper, Bdd.condition, condWithAlloc_tie])
 
+theorem condModelH_loop_tie : Gen.BddCore.condModelH_loop = Bdd.condModel := by
+  first
+  | rfl
+  | (funext lvl p m
+     induction m generalizing p with
+     | nil => first | rfl | simp [Gen.BddCore.condModelH_loop, Bdd.condModel]
+     | cons xb rest ih =>
+       obtain ⟨x, b⟩ := xb
+       simp only [Gen.BddCore.condModelH_loop, Bdd.condModel, condition_tie, ih]
+       first | done | rfl | ((repeat' split) <;> simp_all) | grind)
+theorem condModelH_tie : Gen.BddCore.condModelH = Bdd.condModel := by
+  first
+  | rfl
+  | (funext lvl p m; simp only [Gen.BddCore.condModelH, condModelH_loop_tie])
+
 /-! ## the derived operations -/
 
 theorem bNegate_tie : Gen.BddCore.bNegate = Bdd.Ptr.neg := by
@@ -140,7 +155,7 @@ theorem bOr_tie : Gen.BddCore.bOr = Bdd.bOr := by
   first
   | rfl
   | (funext C lvl fuel s f g; simp only [Gen.BddCore.bOr, Bdd.bOr, bAnd_tie, bNegate_tie]
-     first | rfl | (split <;> simp_all) | grind)
+     first | done | rfl | (split <;> simp_all) | grind)
 theorem bExists_tie : Gen.BddCore.bExists = Bdd.bExists := by
   first
   | rfl
@@ -150,7 +165,7 @@ theorem bCompose_tie : Gen.BddCore.bCompose = Bdd.bCompose := by
   | rfl
   | (funext C lvl fuel s f x g
      simp only [Gen.BddCore.bCompose, Bdd.bCompose, bIff_tie, bAnd_tie, bExists_tie, mkVar_tie]
-     first | rfl | ((repeat' split) <;> simp_all) | grind)
+     first | done | rfl | ((repeat' split) <;> simp_all) | grind)
 
 
 theorem bAndLst_loop_tie : Gen.BddCore.bAndLst_loop = Bdd.bAndLst := by
@@ -161,7 +176,7 @@ theorem bAndLst_loop_tie : Gen.BddCore.bAndLst_loop = Bdd.bAndLst := by
      | nil => first | rfl | simp [Gen.BddCore.bAndLst_loop, Bdd.bAndLst]
      | cons p ps ih =>
        simp only [Gen.BddCore.bAndLst_loop, Bdd.bAndLst, bAnd_tie, ih]
-       first | rfl | ((repeat' split) <;> simp_all) | grind)
+       first | done | rfl | ((repeat' split) <;> simp_all) | grind)
 theorem bAndLst_tie : Gen.BddCore.bAndLst =
     fun (C : Bdd.CacheImpl) (lvl : Nat → Nat) (fuel : Nat) (s : C.σ) (l : List Bdd.Ptr) => Bdd.bAndLst C lvl fuel s Bdd.Ptr.tru l := by
   first
@@ -175,7 +190,7 @@ theorem bOrLst_loop_tie : Gen.BddCore.bOrLst_loop = Bdd.bOrLst := by
      | nil => first | rfl | simp [Gen.BddCore.bOrLst_loop, Bdd.bOrLst]
      | cons p ps ih =>
        simp only [Gen.BddCore.bOrLst_loop, Bdd.bOrLst, bOr_tie, ih]
-       first | rfl | ((repeat' split) <;> simp_all) | grind)
+       first | done | rfl | ((repeat' split) <;> simp_all) | grind)
 theorem bOrLst_tie : Gen.BddCore.bOrLst =
     fun (C : Bdd.CacheImpl) (lvl : Nat → Nat) (fuel : Nat) (s : C.σ) (l : List Bdd.Ptr) => Bdd.bOrLst C lvl fuel s Bdd.Ptr.fls l := by
   first
@@ -322,6 +337,8 @@ end TieBddCore
 #print axioms TieBddCore.condWithAlloc_tie
 #print axioms TieBddCore.condHelper_tie
 #print axioms TieBddCore.condition_tie
+#print axioms TieBddCore.condModelH_loop_tie
+#print axioms TieBddCore.condModelH_tie
 #print axioms TieBddCore.bNegate_tie
 #print axioms TieBddCore.mkVar_tie
 #print axioms TieBddCore.bAnd_tie
